@@ -108,6 +108,19 @@ func famReorder() {
 				M0[k] = pool[r.Intn(len(pool))]
 			}
 		}
+		// a cost belongs to a spelling: pricing another spelling of an operator of the tree changes nothing
+		for _, grp := range aliasGroups {
+			for _, name := range grp {
+				if !ops[name] || r.Intn(3) > 0 {
+					continue
+				}
+				for _, other := range grp {
+					if !ops[other] && r.Intn(2) == 0 {
+						M0[other] = pool[r.Intn(len(pool))]
+					}
+				}
+			}
+		}
 		if r.Intn(4) == 0 {
 			M0["variable"] = pool[r.Intn(len(pool))]
 		}
